@@ -18,7 +18,8 @@ REQUIRED = [
     "clocks_downward_closed", "repair_idle_on_healthy_state", "repair_local", "repair_restores",
     "tree_inv_load", "tree_inv_replace", "zeroTo_clock_of_contiguous", "first_write_rollback_defect_before_fix",
     "fact_page_size", "fact_iblt_buckets", "fact_shelves", "fact_load_empty_resets", "fact_rollback_reload_context",
-    "fact_add_tx_options", "fact_comparisons", "fact_call_structure",
+    "fact_add_tx_options", "fact_comparisons", "fact_call_structure", "fact_wiring", "fact_check_page_conditions",
+    "fact_diagnostics", "diagnostics_spec", "save_failure_is_rolled_back",
 ]
 
 
